@@ -162,7 +162,7 @@ def x_prog(ctx, case):
             ctx.check(enters == want, "stage.test-and-tearDown-iff-setUp-ok",
                       lambda: {"entered": enters, "setUp returned normally": setup_ok, **detail()})
             first_undo = stack_monitor(ctx, env, program, detail)
-            last_stage_enter = max(e[0] for e in env.tags("enter"))
+            last_stage_enter = max([e[0] for e in env.tags("enter")], default=-1)  # (no stage entered: reported above)
             if first_undo is not None:
                 ctx.check(first_undo > last_stage_enter, "cleanup.after-tearDown", detail)
                 stage_events_after = [e for e in env.events if e[0] > first_undo and
